@@ -736,9 +736,14 @@ def run_model(ctx, kind, arg, dump_text, cases, tag):
     mlines = out.decode("latin-1").split("\n")
     for (args, stdin, trc, tout), ml in zip(cases, mlines):
         if ml.startswith("UNMODELLED"):
-            ctx.bump("model-" + ml.split(" ")[1] if " " in ml else "model-unmodelled")
+            ctx.bump("model-unmodelled-" + (ml.split(" ")[1] if " " in ml else "x"))
             continue
-        exp = "rc=%d out=%s" % (0 if trc == 0 else 1, esc(tout))
+        if trc in (-6, 134):
+            exp = "ABORT"
+        elif trc == 124:
+            exp = "HUGE"
+        else:
+            exp = "rc=%d out=%s" % (0 if trc == 0 else 1, esc(tout))
         if ml == exp:
             with ctx.lock:
                 ctx.run.cov["traces_validated_against_impl"] += 1
